@@ -46,6 +46,11 @@ def var_cases(rng, tier):
         keys = [rng.pick([NULL, 1, 2, 3]) for _ in range(n)]
         vals = [rng.pick([NULL, -2, -1, 0, 1, 2, 3]) for _ in range(n)]
         out.append(C.base_case(rng.pick(["var", "std"]), keys, vals, ddof=rng.randrange(2), mask=bool_or_none(rng, n)))
+    # value containers: missing values as NaN, as pandas NA (Float64 / Int64), as arrow / polars nulls
+    for c in out:
+        if c["emb"] == "f64" and not c.get("tf") and rng.random() < 0.5:
+            c["vcont"] = rng.pick(["series", "nullable", "nullable_int", "arrow_int", "arrowseries", "pl", "pa"])
+            c["nanull"] = 1
     return out
 
 
